@@ -273,12 +273,16 @@ class AsyncFIXConnection:
             f" {repr(msg.msg_type)}\n\t {msg_raw.decode("latin-1")}\n"
         )
 
-        self._socket_writer.write(encoded_msg)
-        await self._socket_writer.drain()
-
+        # Journal first: MsgSeqNum is already allocated, and as soon as the frame is
+        #  handed to transport the peer may consume it. A crash or transport error
+        #  after that point must not let the next incarnation reuse the number
+        #  (a journaled but undelivered message is recovered by ResendRequest).
         self._journaler.persist_msg(
             encoded_msg, self._session, MessageDirection.OUTBOUND
         )
+
+        self._socket_writer.write(encoded_msg)
+        await self._socket_writer.drain()
 
     async def send_test_req(self):
         """Sends TestRequest(35=1) and sets TestReqID for expected response from peer.
